@@ -13,6 +13,7 @@ import (
 	"strconv"
 	"strings"
 	"sync"
+	"sync/atomic"
 	"syscall"
 	"time"
 
@@ -318,6 +319,20 @@ type fileVal struct {
 
 var fileCache sync.Map
 
+// cacheBytes bounds the two content caches (file bytes, decoded objects): a workload that produces many large distinct
+// files (a multi-MiB object killed at hundreds of positions) must not grow the monitor without limit.
+var cacheBytes atomic.Int64
+
+const cacheLimit = 3 << 30
+
+func cacheAccount(n int) {
+	if cacheBytes.Add(int64(n)) > cacheLimit {
+		cacheBytes.Store(0)
+		fileCache.Range(func(k, _ any) bool { fileCache.Delete(k); return true })
+		decodeCache.Range(func(k, _ any) bool { decodeCache.Delete(k); return true })
+	}
+}
+
 func readCached(p string, fi os.FileInfo) ([]byte, error) {
 	st, ok := fi.Sys().(*syscall.Stat_t)
 	if !ok {
@@ -340,6 +355,7 @@ func readCached(p string, fi os.FileInfo) ([]byte, error) {
 	if fi2, err2 := os.Lstat(p); err2 == nil {
 		if st2, ok := fi2.Sys().(*syscall.Stat_t); ok && st2.Ino == st.Ino && st2.Size == st.Size && st2.Ctim == st.Ctim && int64(len(b)) == st.Size {
 			fileCache.Store(k, &fileVal{size: st.Size, mtime: mt, ctime: ct, data: b})
+			cacheAccount(len(b))
 		}
 	}
 	return b, nil
@@ -538,6 +554,9 @@ func decodeCached(raw []byte) *ObjInfo {
 	o, err := gitfmt.DecodeObjectFile(raw)
 	oi := &ObjInfo{Obj: o, Err: err}
 	decodeCache.Store(k, oi)
+	if o != nil {
+		cacheAccount(len(o.Body))
+	}
 	return oi
 }
 
